@@ -158,3 +158,24 @@ func isIntType(t types.Type) bool {
 }
 
 var _ = token.NoPos
+
+// deepGuardStrings: the branch facts that hold at a deep instruction - the guards of its own block and of every call-site block
+// along its chain - each written as "x op y" over the root function's values (symbolic expressions).
+func deepGuardStrings(d deepInstr) []string {
+	var out []string
+	add := func(b *ssa.BasicBlock, chain []*ssa.Call) {
+		for _, g := range guardsOf(b) {
+			cf, ok := g.asCmp()
+			if !ok {
+				continue
+			}
+			env := provEnv{chain: chain}
+			out = append(out, symOf(cf.x, env).String()+" "+cf.op.String()+" "+symOf(cf.y, env).String())
+		}
+	}
+	add(d.in.Block(), d.calls)
+	for i := len(d.calls) - 1; i >= 0; i-- {
+		add(d.calls[i].Block(), d.calls[:i])
+	}
+	return out
+}
